@@ -127,6 +127,45 @@ for f in sorted(glob.glob(os.path.join(VERIF, "tools", "manifest_c*.json"))):
        os.path.exists(os.path.join(VERIF, "tools", pid.lower() + ".py")):
         d = json.load(open(f))
         CLAIMED[pid] = dict(text=d["text"], note=d["note"], technique=d["technique"], design=d.get("design", "6/" + pid))
+# the code translator for the bit-level decoders of cameleon/src/u3v/register_map.rs (tools/translate_decoders.py):
+# appended to the text / note / technique of C13 and C14, whatever tools/manifest_c13.json / manifest_c14.json say
+SOURCE_TIE = {
+    "C13": dict(
+        text=" TIE TO THE SOURCE CODE: tools/translate_decoders.py (typed mini-Rust parser + Gallina emitter tools/minirust.py, "
+             "debug-build semantics of lib/RustInt.v: shift-amount, overflow and checked_add rules, literal typing from the "
+             "context) re-translates on every run, from cameleon/src/u3v/register_map.rs into gen/DecodersSrc.v, the bodies of "
+             "Abrm::gencp_version, Sbrm::u3v_version, ManifestEntry::genicam_file_version, Sirm::payload_size_alignment, "
+             "Sirm::is_stream_enable (the part after `let x: u32 = self.read_register(device, <mod>::<REG>)?`, whose shape is "
+             "checked and whose register constant is emitted as the gen/RegTables.v constant), GenICamFileInfo::{file_type, "
+             "compression_type, schema_version}, the macros is_bit_set! / set_bit! / unset_bit! (bodies parsed and expanded) "
+             "with every method of DeviceConfiguration / DeviceCapability / U3VCapablitiy, fn register_address together with "
+             "which read_register helper calls it, and ParseBytes for u3v::BusSpeed. 12 theorems C13_*_from_source (+ "
+             "C13_source_examples) prove, for every register word, that model/RegMap.v's decode DVer32 / DFileVer / DAlign / "
+             "DBool0 / DFileInfo / DSpeed, bit_set / cfg_* / the capability observers and gates, and reg_address ARE the "
+             "translated code, and that the five getters read the register and use the decoder the model pairs them with "
+             "(C13_getters_from_source). A source change outside the accepted subset is reported as a broken proof "
+             "obligation (ShapeError), never translated as something else.",
+        note=" Also trusted: tools/translate_decoders.py + tools/minirust.py (parser, typing of literals, macro expansion by "
+             "sub-tree substitution, variant numbering table) and lib/RustInt.v (the semantics given to Rust's integer "
+             "operations); the getters' prologue `self.read_register(..)?` and the ParseBytes wrappers are shape-checked, "
+             "not translated.",
+        technique=" + code translator (bit-level decoders, bit macros, register_address of register_map.rs)"),
+    "C14": dict(
+        text=" TIE TO THE SOURCE CODE: tools/translate_decoders.py re-translates on every run the bodies of "
+             "ManifestEntry::genicam_file_version and GenICamFileInfo::{file_type, compression_type} "
+             "(cameleon/src/u3v/register_map.rs -> gen/DecodersSrc.v, debug-build semantics of lib/RustInt.v); "
+             "C14_file_version_from_source and C14_file_info_from_source prove, for every register word, that "
+             "model/XmlFetch.v's version_of / file_type / compression_type (div / mod) are the translated shift-and-mask "
+             "code, and that the tests the model's loop and fetch branch on are exactly the outcomes Ok(DeviceXml) / "
+             "Ok(BufferXml) / Err(InvalidDevice) of the translated code (C14_source_examples: non-vacuity).",
+        note=" Also trusted: tools/translate_decoders.py + tools/minirust.py and lib/RustInt.v for the three translated "
+             "decoders.",
+        technique=" + code translator (file version / file info decoders of register_map.rs)"),
+}
+for _pid, _d in SOURCE_TIE.items():
+    if _pid in CLAIMED:
+        for _k in ("text", "note", "technique"):
+            CLAIMED[_pid][_k] = CLAIMED[_pid][_k].rstrip() + _d[_k]
 NOT_YET = "check not built yet in this session (design in DESIGN.md section 6); will be claimed once its model, theorems and correspondence exist"
 
 
